@@ -52,6 +52,10 @@ TEXT = {
             "arbitrary chars (finding F-2, fixed). Up to 8 prefixes / longer strings are outside the bound.", "4"),
     "C17": ("Real select_nodes_for_gossip and its two helpers with every random draw symbolic (rand's sampling modelled by contract): universe of up to 4 addresses with symbolic membership in "
             "peers/live/dead/seeds.", "4"),
+    "C16": ("Real Chitchat::process_message on a SYN whose cluster id is ANY ASCII string of 0..=2 bytes different from the node's own id (own id 'c', '' or 'cc'; covers empty, "
+            "prefix-of-each-other and case variants): the reply is BadCluster only, the digest-processing entry points are never reached (marker stubs), membership, member copies and "
+            "failure-detector maps are unchanged, the own state changes by one heartbeat tick only; and a BadCluster reply is terminal for the initiator. The multi-node / any-schedule "
+            "sentence follows by argument only (a foreign node's state can enter solely through an accepted SYN: SynAck/Ack are only ever sent in answer to one), it is not encoded.", "4"),
     "C14": ("Both coded decisions run from the real code on the same symbolic frontiers: the sender's per-member reset decision / start version (real compute_partial_delta_respecting_mtu) and the "
             "receiver's admission (real check_delta_status/apply_delta) agree for ALL u64 frontiers (key-less) and for 3-key copies with versions 0..7 at every truncation point.", "4"),
 }
